@@ -63,6 +63,16 @@ def oracle(ctx, seeds=None):
         up = a * L if a > 0 else a * R
         if abs(fLR - up) > TOL * sc:
             res.fail('convection:upwind', "F=%r != upwind %r" % (fLR, up), dict(model='convection', a=a, L=L, R=R))
+        # the speed of an EXISTING model object re-assigned (m.convcoef = -m.convcoef: the mirror problem on the same object)
+        def reassigned():
+            m.convcoef = -a
+            return float(np.ravel(m.numflux(None, [np.array([R])], [np.array([L])])[0])[0]), float(np.ravel(m.numflux(None, [np.array([L])], [np.array([L])])[0])[0])
+        ok2, o2 = impl.guarded(reassigned)
+        if not ok2:
+            res.fail('convection:raised', o2, dict(model='convection', a=a, L=L, R=R, reassigned=True)); break
+        if abs(o2[0] + fLR) > TOL * sc or abs(o2[1] + a * L) > TOL * sc:
+            res.fail('convection:mirror-after-reassigning-the-speed', "model(%r) with convcoef re-assigned to %r: F(R,L)=%r (expected %r), F(L,L)=%r (expected %r)" % (a, -a, o2[0], -fLR, o2[1], -a * L),
+                     dict(model='convection', a=a, L=L, R=R, reassigned=True))
     # ---- burgers (odd quantity: flux unchanged under mirror (uL,uR)->(-uR,-uL))
     bm = impl.burgers.model()
     def bf(l, r):
